@@ -509,7 +509,7 @@ class Gen:
                 fn = p.funcs[f - 1]
                 cmds.append(dict(k="subsume", f=f, a=[self.gterm(p, s, 1) for s in fn["ins"]]))
             elif 0.55 <= x < 0.85:
-                cmds.append(dict(k="run", s=self.sched(p, pf["sched_depth"], not pf["growth"])))
+                cmds.append(dict(k="run", s=self.sched(p, pf["sched_depth"], not pf["growth"] and pf["delete"] == 0)))
             elif x < 0.55:
                 cmds.append(dict(k="union", a=self.gterm(p, "E", pf["depth"]), b=self.gterm(p, "E", pf["depth"])))
             elif pf["pushpop"] > 0 and r.random() < pf["pushpop"]:
